@@ -250,6 +250,47 @@ func (x *Exec) modOfContract(m *ModSet, ci *calleeInfo, c *ssa.CallCommon) {
 	}
 }
 
+// mapofType: static map type designated by mapof(p) or mapof(p.F).
+func (x *Exec) mapofType(d string, find func(string) types.Type) types.Type {
+	inner := d[6 : len(d)-1]
+	parts := strings.SplitN(inner, ".", 2)
+	t := find(parts[0])
+	if len(parts) == 2 {
+		pt, ok := t.Underlying().(*types.Pointer)
+		if !ok {
+			panic("mapof through non-pointer: " + d)
+		}
+		st := pt.Elem().Underlying().(*types.Struct)
+		idx, _ := findField(st, parts[1])
+		if idx < 0 {
+			panic("mapof: no field in " + d)
+		}
+		t = st.Field(idx).Type()
+	}
+	if _, ok := t.Underlying().(*types.Map); !ok {
+		panic("mapof of a non-map: " + d)
+	}
+	return t
+}
+
+// mapofRef: the map reference designated by mapof(p) / mapof(p.F), read in state st.
+func (x *Exec) mapofRef(d string, vars map[string]*Sym, st *State) (*Term, types.Type) {
+	inner := d[6 : len(d)-1]
+	parts := strings.SplitN(inner, ".", 2)
+	p := vars[parts[0]]
+	if p == nil {
+		panic("modifies: unknown parameter in " + d)
+	}
+	if len(parts) == 1 {
+		return p.term(), p.T
+	}
+	pt := p.T.Underlying().(*types.Pointer)
+	stT := pt.Elem().Underlying().(*types.Struct)
+	idx, _ := findField(stT, parts[1])
+	lv := lvalOfPtr(p, pt.Elem()).fieldOf(idx)
+	return x.hp.load(st, lv).term(), stT.Field(idx).Type()
+}
+
 // fieldofFamilies: designator fieldof(pkg.Type, Field) = that field of every object of the struct type.
 func (x *Exec) fieldofFamilies(d string) []Family {
 	if !strings.HasPrefix(d, "fieldof(") || !strings.HasSuffix(d, ")") {
@@ -298,6 +339,12 @@ func (x *Exec) designatorFamilies(d string, names []string, typs []types.Type) (
 	}
 	if fs := x.fieldofFamilies(d); fs != nil {
 		return fs, false
+	}
+	if strings.HasPrefix(d, "mapof(") && strings.HasSuffix(d, ")") {
+		// mapof(p) / mapof(p.F): the contents of that map object
+		mt := x.mapofType(d, find)
+		dom, val, ln := x.mapFams(mt)
+		return append(append(append([]Family{}, dom...), val...), ln), false
 	}
 	switch {
 	case strings.HasPrefix(d, "boxof(") && strings.HasSuffix(d, ")"):
@@ -664,6 +711,17 @@ func (x *Exec) havocDesignator(env *Env, d string, st *State, reach *Term, c *ss
 		t := x.typeByName(m[2])
 		ptr := &Sym{T: types.NewPointer(t), L: []*Term{p.term()}}
 		x.storePtr(st, ptr, t, x.freshSym(t, "mod", st.ctr, reach))
+		return
+	}
+	if strings.HasPrefix(d, "mapof(") && strings.HasSuffix(d, ")") {
+		ref, mt := x.mapofRef(d, env.vars, st)
+		dom, val, ln := x.mapFams(mt)
+		for _, f := range append(append(append([]Family{}, dom...), val...), ln) {
+			inner := f.Sort[len("(Array Int ") : len(f.Sort)-1]
+			x.hp.heapSet(st, f, mkStore(x.hp.heapGet(st, f), ref, x.vc.fresh("mapmod", inner)))
+		}
+		nl := mkSelect(x.hp.heapGet(st, ln), ref)
+		x.vc.assume(reach, mkAnd(bvCmp("bvsle", mkBVu(0, 64), nl), bvCmp("bvslt", nl, mkBVu(1<<40, 64))))
 		return
 	}
 	if fs := x.fieldofFamilies(d); fs != nil {
